@@ -228,6 +228,7 @@ type srvWorld struct {
 	// start index for insertion) and differs only in what it writes — the situation of several batchers racing on one contract state
 	shared     *rand.Rand
 	sharedSeed int64
+	chunked    bool // the next request is framed with Transfer-Encoding: chunked (set by classBody)
 }
 
 // newRound starts a new group of requests; with probability 1/2 they share the tree state
